@@ -149,6 +149,23 @@ def replay(pl):
     want = {'submit': 'submit', 'execute': 'execute', 'cancel': 'cancel', 'fill': 'execute', 'cancel-after-submit': 'cancel',
             'available_margin': 'price', 'find_order_index': 'cancel'}.get(ob.split('.')[0], 'execute')
     rng = random.Random(pl.get('seed', 0))
+    # directed: a reduce-only order and an ordinary order resting at the same quantity and price; releasing one must not
+    # touch the reservation of the other
+    for side, first_ro in (('sell', True), ('sell', False), ('buy', True), ('buy', False)):
+        for how in ('cancel', 'execute'):
+            p = Pair(2, 0.0)
+            s = SYMS[0]
+            entry_side = 'buy' if side == 'sell' else 'sell'
+            o, d = p.submit(s, entry_side, 'MARKET', 2.0, 100.0, False)
+            d = d or p.execute(o)
+            px = 120.0 if side == 'sell' else 80.0
+            a, d1 = p.submit(s, side, 'LIMIT', 1.0, px, first_ro)
+            b, d2 = p.submit(s, side, 'LIMIT', 1.0, px, not first_ro)
+            d = d or d1 or d2
+            if not d and a is not None and b is not None:
+                d = p.cancel(a) if how == 'cancel' else p.execute(a)
+            if d and d != 'END':
+                return {'confirmed': True, 'detail': d}
     for _ in range(1200):
         d = history(rng, want)
         if d:
